@@ -361,6 +361,12 @@ def xarray_case(ctx, M, rng):
     ctx.case(case, int(np.sum(impl[1]["fcst_counts"])) >= 2)
     if not summary_matches(impl[1], m):
         ctx.tie_fail("isotonic_fit[xarray] vs model", case, summary_str(impl[1]), str(m))
+    # container / layout independence (relation between public calls): same pairs as plain numpy arrays, matched by label
+    rn = M.isotonic_fit(np.array(f).reshape(sh), np.array(o).reshape(sh), **kwargs(functional, solver, q, None if w is None else np.array(w).reshape(sh)))
+    if not (np.array_equal(rn["fcst_sorted"], impl[1]["fcst_sorted"]) and np.array_equal(rn["fcst_counts"], impl[1]["fcst_counts"])
+            and np.allclose(rn["regression_values"], impl[1]["regression_values"], rtol=1e-9, atol=1e-12, equal_nan=True)):
+        ctx.violation("xarray inputs (dims transposed, coordinates shuffled) give a different fit than the same pairs as numpy arrays",
+                      case, summary_str(rn), summary_str(impl[1]))
 
 
 def boot_case(ctx, M, rng, i):
